@@ -14,3 +14,28 @@ package ipv4
 //@   requires 0 <= hdr.usedIdx && hdr.usedIdx <= len(hdr.buf) && hdr.usedIdx >= header.IPv4MinimumSize && len(hdr.buf) <= 1 << 40 && 0 <= payload.size && payload.size <= 1 << 40
 //@   requires len(r.LocalAddress) == 4 && len(r.RemoteAddress) == 4 && len(ids) == buckets
 //@   modifies everything()
+
+// ---------------------------------------------------------------------------
+// Inbound path (C07): whatever bytes arrive, the IPv4 handlers do not panic, given an
+// initialised endpoint. What the dispatcher (an interface) does with a delivered packet is
+// unknown here.
+//@ define epOK(e) = e != nil && e.dispatcher != nil && e.linkEP != nil && e.fragmentation != nil
+//@ define vvOK(vv) = vv.size == vsum(vv.views) && 0 <= vv.size && vv.size <= 1 << 40
+
+// HandlePacket is proved for packets that are not fragments (MF = 0 and offset 0): validation,
+// trimming to the total length and dispatch. For fragments the reassembly itself is proved
+// safe separately (fragmentation.Process, for all inputs); that the reassembled view handed on
+// afterwards is consistent (size == bytes held) is NOT established, so the delivery of a
+// reassembled datagram is outside this contract.
+//@ func (*endpoint).HandlePacket props C07 C08
+//@   requires epOK(e) && r != nil && vvOK(vv)
+//@   requires len(vv.views) == 0 || len(vv.views[0]) < header.IPv4MinimumSize || be16(vv.views[0], 6) & 0x3fff == 0
+//@   modifies everything()
+
+//@ func (*endpoint).handleICMP props C07 C13
+//@   requires epOK(e) && r != nil && vvOK(vv)
+//@   modifies everything()
+
+//@ func (*endpoint).handleControl props C07
+//@   requires epOK(e) && vvOK(vv)
+//@   modifies everything()
